@@ -1,0 +1,13 @@
+//go:build !verif
+
+package vm
+
+import (
+	"github.com/paulsonkoly/calc/memory"
+	"github.com/paulsonkoly/calc/types/bytecode"
+)
+
+// verifOn guards the verification hooks; with the verif build tag off they are dead code.
+const verifOn = false
+
+func verifStep(_ *Type, _ *context, _ int, _ bytecode.Type, _ *memory.Type) error { return nil }
